@@ -67,6 +67,7 @@ func main() {
 	replay := flag.String("replay", "", "case file to execute")
 	gen := flag.Uint64("gen", 0, "print the case generated for this run seed")
 	full := flag.Bool("full", false, "keep schedules in results")
+	deep := flag.Bool("deep", false, "deeper bounds (thorough tier): larger expressions, more files, tasks and ops")
 	emitCase := flag.Bool("emitcase", false, "attach the generated case to every result")
 	flag.Parse()
 
@@ -77,7 +78,7 @@ func main() {
 	}
 
 	if *gen != 0 {
-		emit(genCase(*gen, profileFor(*profile, 0)))
+		emit(genCase(*gen, profileFor(*profile, 0), *deep))
 		return
 	}
 	if *replay != "" {
@@ -100,7 +101,7 @@ func main() {
 	for i := *from; i < *to; i++ {
 		seed := zzsim.Mix(*base, i) | 1
 		p := profileFor(*profile, i)
-		c := genCase(seed, p)
+		c := genCase(seed, p, *deep)
 		inflight = c
 		emit(line{Ev: "start", I: i, Seed: seed, Profile: p})
 		r := runCase(c)
